@@ -440,3 +440,11 @@ def r12_5(ctx):
 
 
 RULES = [r12_1, r12_2, r12_3, r12_4, r12_5, r12_6]
+
+
+def _xcheck(ctx):
+    from .common import mypy_crosscheck
+    mypy_crosscheck(ctx)
+
+
+THOROUGH = [_xcheck]
